@@ -58,6 +58,24 @@ def posterior_locals(P, f):
     return lab
 
 
+def estep_pol(P, g, **kw):
+    """POL over the E-step with posterior moments as opaque atoms, also inside helpers the E-step calls for them."""
+    p_ = pol.Pol(P, g, opaque=posterior_locals(P, g), inline_repo=True, **kw)
+    p_.opaque_provider = lambda fn: posterior_locals(P, fn)
+    return p_
+
+
+def estep_scopes(P, g):
+    """The E-step and the helpers it hands the machine and a sample to (one level)."""
+    out = [g]
+    for c in walk_no_nested(g.node):
+        if isinstance(c, ast.Call):
+            for t_ in P.resolve_callee(c.func, g):
+                if t_[0] == "repo" and t_[1] not in out and t_[1].module is g.module and not t_[1].qualname.startswith("compute_") and not t_[1].qualname[0].isupper():
+                    out.append(t_[1])
+    return out
+
+
 def check_fnorm(P, R):
     """Centred statistics, identified by where they flow (not by the names of locals):
     - the value returned by compute_tt_sigma_inv_fnorm is T'S^-1 (F - N m);
@@ -71,7 +89,7 @@ def check_fnorm(P, R):
     pol.check_row(R, "POL.fnorm", f.key, t, dict(atoms=[f.value_params[0], "ubm.means", "means"], sign="-", with_=["n"], why="N times the UBM mean is subtracted"))
     g = P.func(IV + "e_step")
     R.analysed(g)
-    gp = pol.Pol(P, g, opaque=posterior_locals(P, g))
+    gp = estep_pol(P, g)
     st, v = _acc_store(g, "fnorm_sigma_wij")
     if v is None:
         R.violation("POL.fnorm", g.key, "stats.fnorm_sigma_wij accumulation", "the Fnorm E[w]' accumulator is no longer updated")
@@ -106,7 +124,7 @@ def check_precision(P, R):
         R.check(bool(dat) and all(s_ == 1 for s_, a in dat) and all(any(x.endswith(".n") for x in a) for s_, a in dat), "PREC.data", f.key, "+ sum_c N_c T_c' S_c^-1 T_c", pol.fmt_terms(dat)[:80], f"the data term of the precision is not a positive count-weighted term: {pol.fmt_terms(dat)}", r.lineno)
     # E[w w'] accumulated into nij_sigma_wij2: N * (posterior covariance + mean outer product)
     g = P.func(IV + "e_step")
-    gp = pol.Pol(P, g, opaque=posterior_locals(P, g))
+    gp = estep_pol(P, g)
     st, v = _acc_store(g, "nij_sigma_wij2")
     if v is None:
         R.violation("PREC.second-moment", g.key, "stats.nij_sigma_wij2 accumulation", "the N E[ww'] accumulator is no longer updated")
@@ -116,7 +134,7 @@ def check_precision(P, R):
     R.check(bool(t) and all(s_ == 1 for s_, a in t) and len(t) >= 2 and bool(cov), "PREC.second-moment", g.key, f"N E[w w'] = {pol.fmt_terms(t)[:90]}", "N * (posterior covariance + outer product of the mean), all positive", f"the accumulated second moment is not N * (inverse precision + mean outer product): {pol.fmt_terms(t)[:120]}", st.lineno)
     R.check(all(any(a.endswith(".n") for a in x[1]) for x in t), "PREC.second-moment", g.key, "weighted by the counts", "", "E[w w'] is not weighted by the counts", st.lineno)
     # the E-step sums have no divisions: counts, statistics, means and posterior moments all multiply
-    gi = pol.Pol(P, g, track_inv=True, opaque=posterior_locals(P, g))
+    gi = estep_pol(P, g, track_inv=True)
     nn = 0
     for attr in ("nij_sigma_wij2", "fnorm_sigma_wij", "snormij", "nij"):
         st2, v2 = _acc_store(g, attr)
@@ -175,27 +193,59 @@ def _inline_posterior_term(P, f, kernel):
     return False, "no linear term of the form T' S^-1 (F - N m)"
 
 
+def _delegate(P, f):
+    """A method whose body is `return helper(args...)`: (helper, {helper parameter: text of the argument}) - else (f, {})."""
+    body = [st for st in f.body() if not isinstance(st, (ast.Pass,))]
+    if len(body) == 1 and isinstance(body[0], ast.Return) and isinstance(body[0].value, ast.Call):
+        c = body[0].value
+        tg = [t_[1] for t_ in P.resolve_callee(c.func, f) if t_[0] == "repo"]
+        if tg and not tg[0].qualname.split(".")[-1].startswith("compute_"):
+            b = P.bind_args(tg[0], c.args, c.keywords)
+            return tg[0], {p_: src(a_) for p_, a_ in b.items()}
+    return f, {}
+
+
 def check_sibling(P, R):
-    pr = P.func(IV + "IVectorMachine.project")
+    pr0 = P.func(IV + "IVectorMachine.project")
     es = P.func(IV + "e_step")
-    R.analysed(pr)
-    kp, ke = _kernel_calls(P, pr), _kernel_calls(P, es)
+    R.analysed(pr0)
+    pr, argmap = _delegate(P, pr0)  # the projection may be a thin method over a module function
+    kp, ke = _kernel_calls(P, pr), {}
+    es_of = {}
+    for sc_ in estep_scopes(P, es):
+        for nm_, val_ in _kernel_calls(P, sc_).items():
+            ke.setdefault(nm_, val_)
+            es_of.setdefault(nm_, sc_)
     for nm in ("compute_id_tt_sigma_inv_t", "compute_tt_sigma_inv_fnorm"):
-        for who, f_, calls, mach in (("project", pr, kp, pr.self_name), ("e_step", es, ke, es.value_params[0])):
+        for who, f_, calls, mach in (("project", pr, kp, pr0.self_name), ("e_step", es, ke, es.value_params[0])):
+            if who == "e_step" and nm in calls:
+                f_ = es_of.get(nm, f_)  # the helper of the E-step that holds the call
+                mach = f_.value_params[0] if f_ is not es else mach
             if nm not in calls:
                 # the kernel may be written out in place: then the same structural conditions are checked on the expression
-                ok_inline, why = _inline_posterior_term(P, f_, nm)
+                ok_inline, why = False, ""
+                for sc_ in (estep_scopes(P, f_) if who == "e_step" else [f_]):
+                    ok_inline, why = _inline_posterior_term(P, sc_, nm)
+                    if ok_inline:
+                        break
                 R.check(ok_inline, "SIBLING.kernels", f_.key, f"{who} computes {nm} (call or in place)", "same posterior in training and extraction", f"{who} neither calls {nm} nor computes its value in place ({why}): training and extraction disagree on the posterior")
                 continue
             R.ok("SIBLING.kernels", f_.key, f"{who} calls {nm}", "same kernel")
             c, b = calls[nm]
             roles = {"T": f"{mach}.T", "sigma": f"{mach}.sigma", "ubm_means": f"{mach}.ubm.means"}
+            from ..dataflow import resolve_name as _rn
+            _du = get_defuse(f_, P)
             for prm, want in roles.items():
                 if prm in b:
-                    R.check(src(b[prm]) == want, "SIBLING.roles", f_.key, f"{nm}({prm}={src(b[prm])})", f"machine's own {prm}", f"{who} passes `{src(b[prm])}` as {prm} where the machine's `{want}` is required", c.lineno)
+                    b[prm] = _rn(_du, b[prm], _du.stmt_of(c))[0]  # a name bound to the machine's parameter is that parameter
+                    got_ = src(b[prm])
+                    if who == "project" and got_ in argmap:
+                        got_ = argmap[got_]  # a parameter of the delegate stands for what the method passes
+                    R.check(got_ == want, "SIBLING.roles", f_.key, f"{nm}({prm}={src(b[prm])})", f"machine's own {prm}", f"{who} passes `{src(b[prm])}` as {prm} where the machine's `{want}` is required", c.lineno)
             if "stats" in b:
                 sv = src(b["stats"])
-                want = pr.value_params[0] if who == "project" else None
+                sv = argmap.get(sv, sv) if who == "project" else sv
+                want = pr0.value_params[0] if who == "project" else None
                 if who == "project":
                     R.check(sv == want, "SIBLING.roles", pr.key, f"{nm}(stats={sv})", "the statistics being projected", f"project passes `{sv}` instead of its statistics argument", c.lineno)
     # project solves precision w = linear term
@@ -260,7 +310,7 @@ def run(P, R, tier):
     # E-step accumulators: N E[ww'], Fnorm E[w]', Snorm, N
     e = P.func(IV + "e_step")
     edu = get_defuse(e, P)
-    ep = pol.Pol(P, e, opaque=posterior_locals(P, e))
+    ep = estep_pol(P, e)
     need = {"nij_sigma_wij2": ("n", "post:"), "fnorm_sigma_wij": ("sum_px", "post:"), "snormij": ("sum_pxx",), "nij": ("n",)}
     for st, t, v, k in stores(e):
         if isinstance(t, ast.Attribute) and t.attr in need:
@@ -285,7 +335,8 @@ def run(P, R, tier):
             R.check(any("update_sigma" in x for x in g_), "DEP.sigma", f.key, "sigma updated under machine.update_sigma", "", "sigma is updated regardless of update_sigma", st.lineno)
         if isinstance(t, ast.Attribute) and t.attr == "T" and isinstance(t.value, ast.Name) and t.value.id == mp:
             n_T += 1
-            R.check(not guards_of(du.stmt_of(st)), "DEP.T", f.key, "T is updated on every M-step", "", "the T update is conditional", st.lineno)
+            from ..cfg import enclosing_guards as _eg
+            R.check(not _eg(du.stmt_of(st)), "DEP.T", f.key, "T is updated on every M-step", "", "the T update is conditional", st.lineno)
             c = cone(du, v, du.stmt_of(st), interproc=False)
             R.check(c.has_attr("nij_sigma_wij2") and c.has_attr("fnorm_sigma_wij") and c.calls_any("solve", "inv"), "DEP.T", f.key, f"{src(t)} = {src(v)[:40]}", "solve(sum N E[ww'], sum Fnorm E[w]')", "the new T does not solve the normal equations built from both accumulators", st.lineno)
     R.check(n_T >= 1, "DEP.T", f.key, "m_step stores machine.T", "", "the M-step no longer updates T: training returns the initial total-variability matrix")
